@@ -597,8 +597,8 @@ class TermCanvas(Canvas):
         elif self.parsestate == 2 and self.escbuf[-1:] + char == f"{ESC}\\".encode("iso8859-1"):
             # end of OSC
             self.parse_osc(self.escbuf[:-1].lstrip(b"0"))
-        elif self.parsestate == 2 and self.escbuf.startswith(b"P") and len(self.escbuf) == 8:
-            # set palette (ESC]Pnrrggbb)
+        elif self.parsestate == 2 and self.escbuf.startswith(b"P") and len(self.escbuf) == 7:
+            # set palette (ESC]Pnrrggbb): this character is the last of the seven hex digits
             pass
         elif self.parsestate == 2 and not self.escbuf and char == b"R":
             # reset palette
